@@ -451,6 +451,11 @@ WSTEP = {"name": "step.window", "files": [G + "c04_step.go"] + MUX, "fn": "Verif
 for pid in ("C03", "C04", "C05", "C18"):
     CHECKS[pid]["runs"] = CHECKS[pid]["runs"] + [WSTEP]
 
+# the boundary class of the C19 known finding (60 fps, PartMinDuration within a few ns of seven frame durations), so that the quick tier meets it too
+CHECKS["C19"]["runs"] = CHECKS["C19"]["runs"] + [
+    {"name": "run.ll.parts.boundary", "files": C19F, "fn": "VerifH_C19_run", "workers": 16,
+     "params": {"GOPBASE": 15, "PMINMAX_MS": 150, "FRAMEIDX": 2, "PMIN_LO_NS": 116666640, "PMIN_HI_NS": 116666690, "K": 36}, "reach": ["non-final-part", "end"]}]
+
 # cheap lemma / step harnesses first: the driver stops at the first run with a confirmed violation
 for _pid in CHECKS:
     CHECKS[_pid]["runs"] = sorted(CHECKS[_pid]["runs"], key=lambda r: 0 if r["name"].split(".")[0] in ("lemma", "step") else 1)
